@@ -386,7 +386,7 @@ func (v *vc) intrinsic(fr *frame, st *state, instr ssa.Instruction, name string,
 		return true
 	case "(*sync.Mutex).Lock", "(*sync.Mutex).Unlock", "(*sync.RWMutex).Lock", "(*sync.RWMutex).Unlock", "(*sync.RWMutex).RLock", "(*sync.RWMutex).RUnlock":
 		trust()
-		v.eng.onLock(v, fr, st, instr, name, c)
+		v.onLockCall(fr, st, name, c)
 		return true
 	case "(*sync.WaitGroup).Add", "(*sync.WaitGroup).Done", "(*sync.WaitGroup).Wait":
 		trust()
